@@ -37,11 +37,15 @@ Definition starts_with (t : tok) (ts : list tok) : bool :=
   | _, _ => false
   end.
 
+Definition fmt_lit (m x : Z) : list tok :=
+  if (m <? 0)%Z then [TMinus; TNum (- m) x] else [TNum m x].
+
 Fixpoint fmtC (e : expr) : list tok :=
   match e with
   | ELitI z => if (z <? 0)%Z then [TMinus; TInt (- z)] else [TInt z]
   | ELitF m x => if (m <? 0)%Z then [TMinus; TNum (- m) x] else [TNum m x]
-  | ELitC _ _ _ _ => []
+  | ELitC a b c d =>
+      TLP :: (fmt_lit a b ++ [TOp OAdd] ++ ([TId id_I] ++ [TOp OMul] ++ fmt_lit c d)) ++ [TRP]
   | ESym x => [TId x]
   | EAcc a idx => TId a :: flat_map (fun i => TLB :: fmtC i ++ [TRB]) idx
   | ENeg a => TMinus :: wrap (c_cmp_un (prec a) (prec_k KNeg) || (c_un_guard && starts_with TMinus (fmtC a)))
@@ -68,11 +72,14 @@ Definition nest (op : binop) (l : list expr) : expr :=
   | a :: r => fold_left (EBin op) r a
   end.
 
+Definition canon_lit (m x : Z) : expr :=
+  if (m <? 0)%Z then ENeg (ELitF (- m) x) else ELitF m x.
+
 Fixpoint canon (e : expr) : expr :=
   match e with
   | ELitI z => if (z <? 0)%Z then ENeg (ELitI (- z)) else e
   | ELitF m x => if (m <? 0)%Z then ENeg (ELitF (- m) x) else e
-  | ELitC _ _ _ _ => e
+  | ELitC a b c d => EBin OAdd (canon_lit a b) (EBin OMul (ESym id_I) (canon_lit c d))
   | ESym _ => e
   | EAcc a idx => EAcc a (map canon idx)
   | ENeg a => ENeg (canon a)
@@ -94,11 +101,10 @@ Definition is_neg_lit (e : expr) : bool :=
 Definition nonempty {A} (l : list A) : bool := match l with [] => false | _ => true end.
 
 (* trees the printer is meant for: no empty n-ary nodes / subscripts / calls,
-   no complex literal (printed through a different path, not modelled here) *)
+   *)
 Fixpoint wfG (e : expr) : bool :=
   match e with
-  | ELitI _ | ELitF _ _ | ESym _ => true
-  | ELitC _ _ _ _ => false
+  | ELitI _ | ELitF _ _ | ESym _ | ELitC _ _ _ _ => true
   | EAcc _ idx => nonempty idx && forallb wfG idx
   | ENeg a | ENot a => wfG a
   | EBin _ l r => wfG l && wfG r
@@ -234,7 +240,18 @@ Proof.
     + apply Z.ltb_lt in Ez. apply G_neg. apply G_sub with (n := 0); [|lia|lia].
       apply G_num. lia.
     + apply Z.ltb_ge in Ez. apply G_num. exact Ez.
-  - discriminate.
+  - (* ELitC: ( re + I * im ) *)
+    assert (Hl : forall m x, G 2 (fmt_lit m x) (canon_lit m x)).
+    { intros m x. unfold fmt_lit, canon_lit. destruct (m <? 0)%Z eqn:Ez.
+      - apply Z.ltb_lt in Ez. apply G_neg. apply G_sub with (n := 0); [|lia|lia]. apply G_num. lia.
+      - apply Z.ltb_ge in Ez. apply G_sub with (n := 0); [|lia|lia]. apply G_num. exact Ez. }
+    unfold clev. simpl. apply G_paren. apply G_sub with (n := 4); [|lia|lia].
+    apply (G_bin OAdd).
+    + apply G_sub with (n := 2); [apply Hl | simpl; lia | simpl; lia].
+    + change (G 3 ([TId id_I] ++ [TOp OMul] ++ fmt_lit c d) (EBin OMul (ESym id_I) (canon_lit c d))).
+      apply (G_bin OMul).
+      * apply G_sub with (n := 0); [apply G_id | simpl; lia | simpl; lia].
+      * simpl. apply Hl.
   - apply G_id.
   - (* EAcc *)
     apply andb_true_iff in Hwf. destruct Hwf as [Hne Hall].
